@@ -130,3 +130,36 @@ R.contract(
     max_paths=30000,
 )
 R.spec_funcs["final_settings"] = lambda it, t: t.fields["_hypothesis_internal_use_settings"]
+
+
+# ------------------------------------------------------------------------------------------------- coverage phase: the ORDER of its cases does not depend on the process
+# A `for` statement over a set visits the elements in an order the language does not define (for strings: the per-process hash seed). pyvc explores every order;
+# the clause fixes the order by a specification (sorted), so a loop over the raw set fails it.  (stubs of the surrounding function: C03's registry)
+from contracts import C03 as _C03  # noqa: E402
+
+for _key, _c in _C03.REG.contracts.items():
+    if _key not in R.contracts and (_c.trusted or _c.abstract_only):
+        R.contracts[_key] = _c
+for _k, _v in _C03.REG.nominal_methods.items():
+    R.nominal_methods.setdefault(_k, dict(_v))
+R.nominal_methods["spec:SchemaMap13"] = {"__getitem__": lambda it, obj, a, k: {"get": None, "parameters": None}}
+for _k, _v in _C03.REG.spec_funcs.items():
+    R.spec_funcs.setdefault(_k, _v)
+for _attr in ("opaque_classes", "extern", "module_values", "exception_classes", "aliases"):
+    for _k, _v in getattr(_C03.REG, _attr, {}).items():
+        getattr(R, _attr).setdefault(_k, _v)
+R.contract(
+    BLD + "_iter_coverage_cases",
+    variant="unexpected-methods",
+    prop="C13",
+    args={"operation": Obj("spec:Operation", parameters=Const(()), body=Const(()), query=Const(()), headers=Const(()), cookies=Const(()), path=Const("/x"), schema=Obj("spec:SchemaMap13")),
+          "generation_modes": _C03._NegOnly(), "unexpected_methods": Choice({"get", "put", "post"}, {"get", "delete", "patch", "trace"}, {"options", "put"})},
+    raises=[],
+    ensures={
+        # same seed => same request SEQUENCE in a fresh process: the probes for undocumented methods come in a fixed (sorted) order
+        "C13_unspecified_method_cases_in_a_process_independent_order": "[c.method for c in result if c.meta.phase.data.description.startswith('Unspecified HTTP method')] == "
+                                                                      "sorted(m.upper() for m in unexpected_methods if m != 'get')",
+    },
+    bounded_note="three sets of unexpected methods (2, 3 and 4 elements), an operation without parameters",
+    replayable=False,
+)
